@@ -56,6 +56,47 @@ def extract (r : DeriveRow) (e : Entry) : Except Err Val :=
 def update (r : DeriveRow) (old : Val) (e : Entry) : Except Err Val :=
   if updateGuardedByContainsId then (if e.isSome then extract r e else .ok old) else extract r e
 
+/-! ### the updater of an `Option<subcommand>` field (`gen_updater`, `Kind::Subcommand` / `Ty::Option`, with the
+enum's own `update_from_arg_matches_mut`: same variant = in place, other variant = rebuilt) for enums whose variants
+have optional leaves only; the two decisions of the generated arm come from `Gen/DeriveTables` -/
+
+/-- a value of the enum: variant name and its (optional) fields -/
+structure SubVal where
+  name : Bytes
+  fields : List (Bytes × Option Bytes)
+deriving Repr, DecidableEq
+
+/-- the subcommand on the update line: its name and the options given -/
+structure SubLine where
+  name : Bytes
+  given : List (Bytes × Bytes)
+deriving Repr, DecidableEq
+
+inductive UErr | missingSubcommand
+deriving Repr, DecidableEq
+
+def lookupGiven (l : SubLine) (f : Bytes) : Option Bytes := (l.given.find? fun p => p.1 == f).map (·.2)
+
+/-- `from_arg_matches_mut` of the enum: every field from the line -/
+def buildSub (schema : Bytes → List Bytes) (l : SubLine) : SubVal :=
+  ⟨l.name, (schema l.name).map fun f => (f, lookupGiven l f)⟩
+
+/-- the variant's fields updated in place: only what the line names changes -/
+def mergeSub (v : SubVal) (l : SubLine) : SubVal :=
+  ⟨v.name, v.fields.map fun p => (p.1, match lookupGiven l p.1 with | some x => some x | none => p.2)⟩
+
+/-- the enum's `update_from_arg_matches_mut` -/
+def updateSub (schema : Bytes → List Bytes) (v : SubVal) (l : SubLine) : SubVal :=
+  if v.name == l.name then mergeSub v l else buildSub schema l
+
+/-- the generated updater of the `Option<enum>` field -/
+def updateOptSub (schema : Bytes → List Bytes) (cur : Option SubVal) (line : Option SubLine) : Except UErr (Option SubVal) :=
+  match cur, line with
+  | some v, none => .ok (some v)
+  | some v, some l => .ok (some (if optSubMergesExisting then updateSub schema v l else buildSub schema l))
+  | none, some l => .ok (some (buildSub schema l))
+  | none, none => if optSubBuildsOnlyWhenNamed then .ok none else .error .missingSubcommand
+
 /-- the entry the parser leaves for the canonical command line of a value (no default, no env):
 `Set` keeps the last occurrence, `Append` one group per occurrence -/
 def store : Val → Entry
